@@ -123,11 +123,11 @@ impl LruPageCache {
     
     /// First and last page of the byte range `offset..end_offset`, computed in 64 bits
     /// (a cast of `offset / PAGE_SIZE` to the 32-bit `PageId` takes page 2^32 + n for
-    /// page n). `None`: the range starts beyond the last page a `PageId` can name.
+    /// page n). `None`: the range is empty or starts beyond the last page a `PageId` can name.
     fn page_span(offset: u64, end_offset: u64) -> Option<(PageId, PageId)> {
         let first = offset / PAGE_SIZE as u64;
         let last = end_offset.saturating_sub(1) / PAGE_SIZE as u64;
-        if first > PageId::MAX as u64 {
+        if end_offset <= offset || first > PageId::MAX as u64 {
             return None;
         }
         Some((first as PageId, std::cmp::min(last, PageId::MAX as u64) as PageId))
@@ -302,6 +302,13 @@ impl LruPageCache {
         let (start_page, end_page) = match Self::page_span(offset, end_offset) {
             Some(span) => span,
             None => return Ok(()),
+        };
+        // Nothing is to be loaded beyond the last page of the file (a long range would
+        // otherwise walk up to 2^32 pages)
+        let end_page = match self.file_manager.file_size(file_id).map(|size| Self::page_span(0, size)) {
+            Ok(Some((_, last_page))) => std::cmp::min(end_page, last_page),
+            Ok(None) => return Ok(()), // empty file
+            Err(_) => end_page, // virtual file id
         };
         
         // Prefetch each page (load into cache without returning data)
